@@ -675,6 +675,68 @@ func (c *Ctx) closerHelperStore(h *types.Func, fld *types.Var) (param int, onRec
 	return param, onRecv, stored
 }
 
+// closerHelperRestores: h's only return, at the top level of its body, gives a function literal that
+// stores back to fld a local read from fld before h stores to fld anywhere (`outer := r.F; if … { r.F = x };
+// return func() { r.F = outer }`): `defer h(…)()` restores fld to the value it held at the call of h.
+func (c *Ctx) closerHelperRestores(h *types.Func, fld *types.Var) bool {
+	hd := c.declOf[h]
+	if h == nil || hd == nil || hd.Body == nil {
+		return false
+	}
+	hinfo := c.pkgOf[hd].TypesInfo
+	var retLit *ast.FuncLit
+	nret, total := 0, 0
+	for _, st := range hd.Body.List {
+		if rs, isRet := st.(*ast.ReturnStmt); isRet {
+			nret++
+			if len(rs.Results) == 1 {
+				retLit, _ = ast.Unparen(rs.Results[0]).(*ast.FuncLit)
+			}
+		}
+	}
+	ast.Inspect(hd.Body, func(n ast.Node) bool {
+		if _, isLit := n.(*ast.FuncLit); isLit {
+			return false
+		}
+		if _, isRet := n.(*ast.ReturnStmt); isRet {
+			total++
+		}
+		return true
+	})
+	if retLit == nil || nret != 1 || total != 1 {
+		return false
+	}
+	// first store to fld in the helper outside the returned literal
+	firstStore := token.NoPos
+	ast.Inspect(hd.Body, func(n ast.Node) bool {
+		if n == ast.Node(retLit) {
+			return false
+		}
+		if as, isAs := n.(*ast.AssignStmt); isAs {
+			for _, l := range as.Lhs {
+				if FieldOfSelector(hinfo, l) == fld && (firstStore == token.NoPos || as.Pos() < firstStore) {
+					firstStore = as.Pos()
+				}
+			}
+		}
+		return true
+	})
+	restores := false
+	ast.Inspect(retLit.Body, func(n ast.Node) bool {
+		if as, isAs := n.(*ast.AssignStmt); isAs && len(as.Lhs) == len(as.Rhs) {
+			for i, l := range as.Lhs {
+				if FieldOfSelector(hinfo, l) == fld {
+					if d := soleDef(hinfo, hd.Body, as.Rhs[i]); d != nil && FieldOfSelector(hinfo, d) == fld && (firstStore == token.NoPos || d.Pos() < firstStore) {
+						restores = true
+					}
+				}
+			}
+		}
+		return true
+	})
+	return restores
+}
+
 // deferRestoresField: ds registers, unconditionally where it stands, a restore of fld to the
 // value it holds now: `defer func(){ x.F = saved }()` is judged by the callers themselves;
 // this recognises the packaged forms `defer x.h(v)()`, `defer set(enter(…))` and
@@ -684,7 +746,8 @@ func (c *Ctx) deferRestoresField(info *types.Info, ds *ast.DeferStmt, fld *types
 		if _, _, ok := c.closerHelperStore(originOf(Callee(info, inner)), fld); ok {
 			return true
 		}
-		return false
+		// the helper may store conditionally (or not at all): what the defer registers is the restore
+		return c.closerHelperRestores(originOf(Callee(info, inner)), fld)
 	}
 	sf := originOf(Callee(info, ds.Call))
 	sd := c.declOf[sf]
